@@ -216,6 +216,32 @@ def w_mpi(arg):
                     rec.finding('mpi-decode', 'value', case, 'decoded %x rest %s' % (int(d), bytes(buf).hex()))
             except Exception as e:   # noqa
                 rec.finding('mpi-decode', 'exception/' + harness.exc_key(e), case, repr(e))
+            # an encoding by a fixed-width / zero-padding writer: the declared bit count exceeds the value's (RFC 4880 3.2 fixes the
+            # octet count from the declared bits, so such octets have a definite value); what PGPy writes for the integer it read
+            # must again decode to that value and be consumed exactly, with two more fields following
+            if bits % 7 == 0 or bits < 40:
+                for extra in (1, 7, 8, 9, 16, 31):
+                    dbits = bits + extra
+                    if dbits > 65535:
+                        continue
+                    raw = dbits.to_bytes(2, 'big') + v.to_bytes((dbits + 7) // 8, 'big')
+                    buf = bytearray(raw + want + b'\xAA')
+                    ncase = {'kind': 'mpi-padded', 'v': '%x' % v, 'declared': dbits}
+                    try:
+                        d = MPI(buf)
+                        enc2 = bytes(d.to_mpibytes())
+                        rest_ok = bytes(buf) == want + b'\xAA'
+                        v2, used, _ = wire.mpi_decode(enc2 + want + b'\xAA')
+                    except Exception as e:   # noqa
+                        rec.finding('mpi-padded', 'exception/' + harness.exc_key(e), ncase, repr(e))
+                        continue
+                    rec.case(('mpi-padded', v, dbits), True, ('mpi-padded/extra-octets=%d' % (((dbits + 7) // 8) - ((bits + 7) // 8)),),
+                             {'sub': 'mpi', 'bits': bits, 'declared_bits': dbits})
+                    if int(d) != v or not rest_ok:
+                        rec.finding('mpi-padded', 'decode', ncase, 'decoded %x, consumed exactly: %s' % (int(d), rest_ok))
+                    elif v2 != v or used != len(enc2) or len(d) != len(enc2):
+                        rec.finding('mpi-padded', 're-encode', ncase, 'read %s, wrote %s (len() %d), which a reader takes as %x using %d octets' % (
+                            raw[:8].hex(), enc2[:8].hex(), len(d), v2, used))
     rec.exhaustive['MPI bit lengths 0..4200 x patterns'] = True
     return rec
 
@@ -470,7 +496,7 @@ def replay(case):
         r = w_oldlen((case['n'], case['n'] + 1))
     elif k == 'subdec':
         r = w_sublen((case['n'], case['n'] + 1))
-    elif k == 'mpi':
+    elif k in ('mpi', 'mpi-padded'):
         b = int(case['v'], 16).bit_length()
         r = w_mpi((b, b + 1))
     elif k == 'count':
